@@ -67,7 +67,12 @@ func parseProject(a []string) (project, []string) {
 // shareCache holds the type and rule objects of the projects with the flag "share" (reset by the hist handler).
 var shareCache = map[string]interface{}{}
 
+// sig: the objects of an `all` project carry registrations of their own, so they are shared between projects with the
+// same types and rules only; without `all` an object is its text and nothing else, and is shared by name and text
 func (p project) sig() string {
+	if !p.all {
+		return "-"
+	}
 	h := sha1.New()
 	for _, t := range append(append([]typeDef{}, p.types...), p.rules...) {
 		fmt.Fprintf(h, "%s|%s|%x|", t.name, t.kind, t.body)
